@@ -625,3 +625,34 @@ package vm
 //@   ensures (result1 == nil) == inputOk(str(input))
 // every refusal is counted (so that callers can say "whenever the check refused ...")
 //@   ensures (result1 == nil ==> count(rejected) == old(count(rejected))) && (result1 != nil ==> count(rejected) == old(count(rejected)) + 1)
+
+// ---- the disassembler (C15) ----
+// a complete, valid instruction at the start of b, by opcode; and its length
+//@ pred okSymArg(b) = okStr(b, 2)
+//@ pred okTwoSymArg(b) = okStr(b, 2) && okStr(b, afterStr(b, 2))
+//@ pred okInstr(b) = len(b) >= 2 && opAt(b, 0) <= _MAX && OpcodeString[Opcode(opAt(b, 0))] != ""
+//@   && (opAt(b, 0) == CATCH ==> okStr(b, 2) && okInt(b, afterStr(b, 2)) && afterInt(b, afterStr(b, 2)) < len(b))
+//@   && (opAt(b, 0) == CROAK ==> okInt(b, 2) && afterInt(b, 2) < len(b))
+//@   && (opAt(b, 0) == LOAD ==> okStr(b, 2) && okInt(b, afterStr(b, 2)))
+//@   && (opAt(b, 0) == RELOAD || opAt(b, 0) == MAP || opAt(b, 0) == MOVE ==> okSymArg(b))
+//@   && (opAt(b, 0) == INCMP || opAt(b, 0) == MOUT || opAt(b, 0) == MNEXT || opAt(b, 0) == MPREV ==> okTwoSymArg(b))
+//@ ghost instrLen(b) = ite(opAt(b, 0) == CATCH, afterInt(b, afterStr(b, 2)) + 1,
+//@     ite(opAt(b, 0) == CROAK, afterInt(b, 2) + 1,
+//@     ite(opAt(b, 0) == LOAD, afterInt(b, afterStr(b, 2)),
+//@     ite(opAt(b, 0) == RELOAD || opAt(b, 0) == MAP || opAt(b, 0) == MOVE, afterStr(b, 2),
+//@     ite(opAt(b, 0) == INCMP || opAt(b, 0) == MOUT || opAt(b, 0) == MNEXT || opAt(b, 0) == MPREV, afterStr(b, afterStr(b, 2)), 2)))))
+
+// ParseAll: every completed iteration consumed exactly one complete, valid instruction
+// (so a nil error at the end means the whole input is a sequence of such instructions:
+// induction over the iterations); an undefined opcode, a truncated or over-long
+// argument ends the loop with an error instead.
+//@ func (*ParseHandler).ParseAll
+//@   serves C15
+//@   requires ph != nil && ph.Catch != nil && ph.Croak != nil && ph.Load != nil && ph.Reload != nil && ph.Map != nil && ph.Move != nil && ph.Halt != nil
+//@     && ph.InCmp != nil && ph.MOut != nil && ph.MSink != nil && ph.MNext != nil && ph.MPrev != nil
+//@   modifies everything except e:uint8, f:vm.ParseHandler.C, f:vm.ParseHandler.L, f:vm.ParseHandler.R, f:vm.ParseHandler.M, f:vm.ParseHandler.H, f:vm.ParseHandler.I, count(written)
+//@   loop 1 modifies everything except e:uint8, f:vm.ParseHandler.C, f:vm.ParseHandler.L, f:vm.ParseHandler.R, f:vm.ParseHandler.M, f:vm.ParseHandler.H, f:vm.ParseHandler.I, count(written)
+//@   loop 1 invariant @handlers ph.Catch != nil && ph.Croak != nil && ph.Load != nil && ph.Reload != nil && ph.Map != nil && ph.Move != nil && ph.Halt != nil
+//@     && ph.InCmp != nil && ph.MOut != nil && ph.MSink != nil && ph.MNext != nil && ph.MPrev != nil
+//@   loop 1 invariant @buf sameBacking(b, old(b)) || b == nil || len(b) == 0
+//@   loop 1 step[C15] @complete okInstr(iterold(b)) && len(b) == iterold(len(b)) - iterold(instrLen(b)) && (len(b) > 0 ==> offset(b) == iterold(offset(b)) + iterold(instrLen(b)) && sameBacking(b, iterold(b)))
